@@ -350,7 +350,7 @@ class SizeCase:
 
     def label(self):
         parts = ["%r > 0" % (a,) for a in self.assume] + ["%s = %r" % (n, b) for n, b in self.subs]
-        parts += [("%s %s 0" % (n, "!=" if nz else "==")) if not n.startswith("[") else ("%s %s" % (n, "holds" if nz else "does not hold"))
+        parts += [("%s %s 0" % (n, "!=" if nz else "==")) if not n.startswith(("[", "may_share", "allclose")) else ("%s %s" % (n, "holds" if nz else "does not hold"))
                   for n, nz in self.decisions]
         return ", ".join(parts)
 
@@ -411,7 +411,7 @@ def set_case(case):
     for n, b in case.subs:
         poly.SYM_SUBS[n] = b.poly()
     for n, nz in case.decisions:
-        if not nz and not n.startswith("["):
+        if not nz and not n.startswith(("[", "may_share", "allclose")):
             poly.SYM_SUBS[n] = Poly()        # the reduction is zero on this path
     for reg in CASE_CACHES:
         reg.clear()
